@@ -14,13 +14,16 @@ What is proved here, and at which strength:
   The `prev ≥ current` branch returns 10^19 < 2^64−1: antitonicity from elapsed 0 needs the requirement at one
   millisecond to stay ≤ 10^19 (`hcap`); without it the statement is false (`antitone_sentinel_witness`, and on the
   real code for every burn fee ≥ 10^19).
-* `accepted_has_work` (every flag vector), `accepted_has_valid_work_fixed` (with `txVerdictPropagated`),
+* `accepted_has_work` (every flag vector, both kinds of validating node: the work gate is not gated by
+  `validate_against_utxo`), `accepted_has_valid_work_fixed` (with `txVerdictPropagated`),
   witnesses `forged_work_witness`, `selfhop_work_witness` for the pinned tree.
 * `workForMe_le_fees`, `workForMe_char`, `halveN_closed` — the halving law, outright.
 * `winning_router_on_path`, `winningRouter_unreachable`, `find_winning_router_on_path` — outright.
 * `payout_eligible`, `payout_bounded`, `payout_shares` — outright, for an arbitrary cap.
 * `accepted_pays_only_eligible_fixed` (with `feeTxExact`), witnesses `second_fee_tx_witness`,
-  `fee_without_ticket_witness`, and what still holds on the pinned tree (`last_fee_tx_checked_partial`).
+  `fee_without_ticket_witness`, and what still holds on the pinned tree (`last_fee_tx_checked_partial`); these three
+  need a node that validates against its ledger (`vau = true`): a node that joined mid-chain compares no fee
+  transaction (`midchain_fee_unchecked_witness`).
 -/
 namespace Saito.C08
 open Saito.BurnFee Saito.Routing
@@ -287,11 +290,13 @@ theorem validWork_eq_of_vrp (c : Nat) (tx : Tx) (h : validateRoutingPath tx = tr
 theorem totalValidWork_le (b : Blk) : totalValidWork b ≤ totalWork b :=
   sumList_le _ _ _ (validWork_le b.creator)
 
-/-- **a block is accepted only if the routing work the node counts meets the requirement** — every flag vector.
+/-- **a block is accepted only if the routing work the node counts meets the requirement** — every flag vector,
+    and BOTH kinds of validating node (`vau` = `validate_against_utxo`: a node holding block 1, or one that joined
+    mid-chain): the work gate of block.rs:2986-2996 is not gated by `validate_against_utxo`.
     "Counts" = `workForMe_char`: non-empty contiguous path ending at the creator, halved per hop. -/
 theorem accepted_has_work (fl : Flags) (O : FloatOps) (bf ts pts hb : Nat) (b : Blk) (rest : Bool)
-    (exp : Option (List (Nat × Nat)))
-    (h : blockAccepts fl O bf ts pts hb b rest exp = true) :
+    (exp : Option (List (Nat × Nat))) (vau : Bool)
+    (h : blockAccepts fl O bf ts pts hb b rest exp vau = true) :
     workNeeded O bf ts pts hb ≤ totalWork b := by
   unfold blockAccepts blockAcceptsN at h
   simp only [Bool.and_eq_true, decide_eq_true_eq] at h
@@ -301,12 +306,13 @@ theorem accepted_has_work (fl : Flags) (O : FloatOps) (bf ts pts hb : Nat) (b : 
     meets the requirement with work counted only for transactions whose path is non-empty, contiguous and ends
     at the block's creator, each worth its fees halved once per further hop -/
 theorem accepted_counts_only_shaped_paths_partial (fl : Flags) (O : FloatOps) (bf ts pts hb : Nat) (b : Blk)
-    (rest : Bool) (exp : Option (List (Nat × Nat))) (h : blockAccepts fl O bf ts pts hb b rest exp = true) :
+    (rest : Bool) (exp : Option (List (Nat × Nat))) (vau : Bool)
+    (h : blockAccepts fl O bf ts pts hb b rest exp vau = true) :
     workNeeded O bf ts pts hb ≤ totalWork b ∧
       ∀ tx ∈ b.txs, workForMe b.creator tx ≠ 0 →
         (tx.path ≠ [] ∧ tx.path.getLast?.map (·.to) = some b.creator ∧ contiguous tx.path = true ∧
           workForMe b.creator tx = halveN (tx.path.length - 1) tx.fees) := by
-  refine ⟨accepted_has_work fl O bf ts pts hb b rest exp h, ?_⟩
+  refine ⟨accepted_has_work fl O bf ts pts hb b rest exp vau h, ?_⟩
   intro tx _ hne
   obtain ⟨h1, h2, h3⟩ := counted_only_if b.creator tx hne
   refine ⟨h1, h2, h3, ?_⟩
@@ -316,8 +322,8 @@ theorem accepted_counts_only_shaped_paths_partial (fl : Flags) (O : FloatOps) (b
 /-- **with the transaction verdict propagated**: the requirement is met by work delivered through
     cryptographically valid, contiguous, self-hop-free paths, and every hop signature in the block verifies -/
 theorem accepted_has_valid_work_fixed (fl : Flags) (hfl : fl.txVerdictPropagated = true) (O : FloatOps)
-    (bf ts pts hb : Nat) (b : Blk) (rest : Bool) (exp : Option (List (Nat × Nat)))
-    (h : blockAccepts fl O bf ts pts hb b rest exp = true) :
+    (bf ts pts hb : Nat) (b : Blk) (rest : Bool) (exp : Option (List (Nat × Nat))) (vau : Bool)
+    (h : blockAccepts fl O bf ts pts hb b rest exp vau = true) :
     workNeeded O bf ts pts hb ≤ totalValidWork b ∧
       ∀ tx ∈ b.txs, ∀ hop ∈ tx.path, hop.sigOk = true ∧ hop.frm ≠ hop.to := by
   unfold blockAccepts blockAcceptsN at h
@@ -354,12 +360,19 @@ theorem selfhop_work_witness :
     blockAcceptsN {} 500000 b true = true ∧ totalValidWork b = 0 ∧
     blockAcceptsN { txVerdictPropagated := true } 500000 b true = false := by decide
 
-/-- one nolan short is rejected, whatever the flags -/
+/-- one nolan short is rejected, whatever the flags and on both kinds of node -/
 theorem one_short_rejected (fl : Flags) (needed : Nat) (b : Blk) (rest : Bool) (exp : Option (List (Nat × Nat)))
-    (h : totalWork b < needed) : blockAcceptsN fl needed b rest exp = false := by
+    (vau : Bool) (h : totalWork b < needed) : blockAcceptsN fl needed b rest exp vau = false := by
   unfold blockAcceptsN
   have : decide (needed ≤ totalWork b) = false := by simp; omega
   simp [this]
+
+/-- a node that joined mid-chain (`validate_against_utxo = false`) rejects a block with no routing work offered
+    inside two heartbeats just like a full node does; and a block that meets the requirement is accepted by both -/
+example :
+    let b : Blk := { creator := 1, txs := [{ sender := some 7, fees := 5, path := [] }] }
+    blockAcceptsN {} 500000 b true none false = false ∧ blockAcceptsN {} 500000 b true none true = false ∧
+    blockAcceptsN {} 0 b true none false = true := by decide
 
 /-! ## 5. The lottery inside a transaction: `get_winning_routing_node` -/
 
@@ -559,9 +572,11 @@ example : feeOutputs exCtx = .outs [(9, 5), (1, 5), (3, 4)] := by decide
 
 /-! ## 8. The fee transactions a block may carry -/
 
-/-- **with the fee-transaction test exact**: an accepted block carries no Fee transaction without a ticket and
-    exactly the expected one with a ticket — so every fee output it creates is eligible and the outputs together
-    stay within the fees of the paid blocks -/
+/-- **with the fee-transaction test exact, on a node that validates against its ledger** (`vau = true`, the
+    default argument: the node holds block 1 or a full genesis period): an accepted block carries no Fee transaction
+    without a ticket and exactly the expected one with a ticket — so every fee output it creates is eligible and the
+    outputs together stay within the fees of the paid blocks. The hypothesis on the node is needed: the hash
+    comparison is gated by `validate_against_utxo` (`midchain_fee_unchecked_witness`). -/
 theorem accepted_pays_only_eligible_fixed (fl : Flags) (hfl : fl.feeTxExact = true) (needed : Nat) (b : Blk)
     (rest : Bool) (c : PayCtx) (hasTicket : Bool)
     (h : blockAcceptsN fl needed b rest
@@ -580,7 +595,8 @@ theorem accepted_pays_only_eligible_fixed (fl : Flags) (hfl : fl.feeTxExact = tr
     · intro o ho; rw [hfee] at ho; simp at ho
     · rw [hfee]; simp [sumAmt]
   | true =>
-    simp only [ht, if_true, beq_iff_eq] at hfee
+    simp only [ht, if_true, beq_iff_eq, Bool.not_true, Bool.false_or, Bool.and_eq_true] at hfee
+    replace hfee := hfee.2
     refine ⟨fun hh => (by cases hh), ?_, ?_⟩
     · intro o ho
       rw [hfee] at ho
@@ -607,8 +623,9 @@ theorem fee_without_ticket_witness :
     blockAcceptsN {} 0 b true none = true ∧ blockOutcome {} 0 b true none = .supplyPanic ∧
     blockAcceptsN { feeTxExact := true } 0 b true none = false := by decide
 
-/-- what still holds on the pinned tree: if the block carries a ticket and any Fee transaction, its LAST Fee
-    transaction is the expected one (so a tampered key or amount in a single fee transaction is rejected) -/
+/-- what still holds on the pinned tree, on a node that holds block 1 (`vau = true`): if the block carries a ticket
+    and any Fee transaction, its LAST Fee transaction is the expected one (so a tampered key or amount in a single
+    fee transaction is rejected) -/
 theorem last_fee_tx_checked_partial (fl : Flags) (needed : Nat) (b : Blk) (rest : Bool) (e last : List (Nat × Nat))
     (hl : b.feeTxs.getLast? = some last)
     (h : blockAcceptsN fl needed b rest (some e) = true) : last = e := by
@@ -617,13 +634,23 @@ theorem last_fee_tx_checked_partial (fl : Flags) (needed : Nat) (b : Blk) (rest 
   have hfee := h.2
   cases hx : fl.feeTxExact with
   | true =>
-    simp only [hx, if_true, beq_iff_eq] at hfee
-    rw [hfee] at hl
+    simp only [hx, if_true, beq_iff_eq, Bool.not_true, Bool.false_or, Bool.and_eq_true] at hfee
+    rw [hfee.2] at hl
     simp at hl
     exact hl.symm
   | false =>
     simp [hx, hl] at hfee
     exact hfee
+
+/-- **witness (pinned tree, node that joined mid-chain)**: with `validate_against_utxo = false` the fee transaction
+    is not compared at all — a single fee transaction paying key 99 instead of the expected parties passes, even
+    with the count repaired (`feeTxExact`), and no supply check follows. A full node rejects the same block.
+    Reproduced on the real node (finding C08/fee-output-to-ineligible-key/node-without-block-1). -/
+theorem midchain_fee_unchecked_witness :
+    let b : Blk := { creator := 1, txs := [], feeTxs := [[(99, 5)]] }
+    blockOutcome {} 0 b true (some [(9, 5), (1, 5)]) false = .accepted ∧
+    blockOutcome Flags.fixed 0 b true (some [(9, 5), (1, 5)]) false = .accepted ∧
+    blockOutcome {} 0 b true (some [(9, 5), (1, 5)]) true = .rejected := by decide
 
 /-- an honest block (one expected fee transaction) is accepted and the supply check passes -/
 example : blockOutcome Flags.fixed 0 { creator := 1, txs := [], feeTxs := [[(9, 5), (1, 5)]] } true (some [(9, 5), (1, 5)]) = .accepted := by
